@@ -157,7 +157,7 @@ impl Sym {
     pub fn is_poly(self) -> bool { p_is_const(&get(self).d) == Some(1) }
     pub fn num(self) -> Sym { mk(get(self).n, p_const(1)) }
     pub fn den(self) -> Sym { mk(get(self).d, p_const(1)) }
-    /// the TLC encoding of a polynomial: {"p": [[coefficient, monomial as product of primes], ...]}
+    /// the TLC encoding of a polynomial: {"ply": [[coefficient, monomial as product of primes], ...]}
     pub fn enc_poly(self) -> serde_json::Value {
         let f = get(self);
         if p_is_const(&f.d) != Some(1) { inconclusive("a fraction where the specification expects a polynomial") }
@@ -168,7 +168,7 @@ impl Sym {
             if c.abs() >= (1 << 30) { inconclusive("coefficient does not fit TLC's integers") }
             terms.push(serde_json::json!([*c as i64, g as i64]));
         }
-        serde_json::json!({ "p": terms })
+        serde_json::json!({ "ply": terms })
     }
     fn approx(self) -> f64 { let f = get(self); p_eval(&f.n) / p_eval(&f.d) }
 }
